@@ -191,6 +191,32 @@ async fn form_async_guard_with<R: RtT>(m: &'static M04<R>) -> Leave {
     l
 }
 
+// explicit ids: the trace_id / span_parent / span_id control parameters of the span macros, in
+// the value forms CaptureTraceId / CaptureSpanId accept (they take precedence over generated ids)
+#[emit::span(rt: m.rt.get(), "explicit ids as hex text", trace_id, span_parent, span_id)]
+fn form_explicit_str<R: RtT>(m: &'static M04<R>, trace_id: &str, span_parent: &str, span_id: &str) -> Leave {
+    reply_ok();
+    run_loop(m)
+}
+
+#[emit::span(rt: m.rt.get(), "explicit ids from a SpanCtxt", trace_id: c.trace_id(), span_parent: c.span_parent(), span_id: c.span_id())]
+fn form_explicit_ctxt<R: RtT>(m: &'static M04<R>, c: SpanCtxt) -> Leave {
+    reply_ok();
+    run_loop(m)
+}
+
+#[emit::span(rt: m.rt.get(), "explicit ids as integers", trace_id: tr, span_parent: pa, span_id: id)]
+fn form_explicit_int<R: RtT>(m: &'static M04<R>, tr: u128, pa: u64, id: u64) -> Leave {
+    reply_ok();
+    run_loop(m)
+}
+
+#[emit::span(rt: m.rt.get(), "explicit typed ids", trace_id: tr, span_parent: pa, span_id: id)]
+fn form_explicit_typed<R: RtT>(m: &'static M04<R>, tr: emit::TraceId, pa: emit::SpanId, id: &emit::SpanId) -> Leave {
+    reply_ok();
+    run_loop(m)
+}
+
 fn form_new_span_call<R: RtT>(m: &'static M04<R>) -> Leave {
     let (mut guard, frame) = emit::new_span!(rt: m.rt.get(), "new_span then call");
     frame.call(move || {
@@ -281,7 +307,17 @@ impl<R: RtT> Machine for M04<R> {
             "begin" => {
                 self.set_verdict(step);
                 let i = step["i"].as_u64().unwrap();
-                let leave = match (salt + i) % 8 {
+                let leave = if step["ex"] == true {
+                    let tr = incoming_trace(step["xids"][0].as_u64().unwrap());
+                    let id = incoming_span(step["xids"][1].as_u64().unwrap());
+                    let pa = incoming_span(step["xids"][2].as_u64().unwrap());
+                    match (salt + i) % 4 {
+                        0 => form_explicit_str(self, &tr.to_string(), &pa.to_string(), &id.to_string()),
+                        1 => form_explicit_ctxt(self, SpanCtxt::new(Some(tr), Some(pa), Some(id))),
+                        2 => form_explicit_int(self, tr.to_u128(), pa.to_u64(), id.to_u64()),
+                        _ => form_explicit_typed(self, tr, pa, &id),
+                    }
+                } else { match (salt + i) % 8 {
                     0 => form_sync_fn(self),
                     1 => form_new_span_call(self),
                     2 => form_sync_guard(self),
@@ -290,7 +326,7 @@ impl<R: RtT> Machine for M04<R> {
                     5 => either(form_sync_result_ok(self)),
                     6 => either(form_sync_result_err(self)),
                     _ => form_sync_guard_with(self),
-                };
+                } };
                 self.after_nested(leave)
             }
             "new" => {
@@ -500,6 +536,10 @@ fn opt(v: &Value) -> Option<String> {
 /// Finding F29 (open): the signature the known-findings file matches starts with this.
 const F29: &str = "C04:F29:cancelled span completes with the ambient ids";
 
+/// Finding F30: explicit trace_id / span_id control parameters are overwritten by the generated ids.
+const F30: &str = "C04:F30:explicit span ids lose to the generated ids in ThreadLocalCtxt";
+const STOP: &str = "__classified_stop__";
+
 /// One runtime form with its judge state.
 struct Runner<R: RtT> {
     m: &'static M04<R>,
@@ -531,6 +571,16 @@ impl<R: RtT> CaseRunner for Runner<R> {
                     }
                 } else if rep.get("panicked").is_some() {
                     return Some(json!({"what": "panic in code under test", "detail": rep}));
+                }
+                if step["op"] == "begin" && step["ex"] == true {
+                    // explicit ids are the environment's too
+                    let x = &step["xids"];
+                    let tr = Some(format!("t:{}", incoming_trace(x[0].as_u64().unwrap())));
+                    let id = Some(format!("s:{}", incoming_span(x[1].as_u64().unwrap())));
+                    let pa = Some(format!("s:{}", incoming_span(x[2].as_u64().unwrap())));
+                    if !unify_ids(bij, &json!([x[0], x[1], x[2]]), &tr, &id, &pa) {
+                        tool_error("explicit ids collide with other ids");
+                    }
                 }
                 if step["op"] == "incoming" {
                     // the incoming ids are chosen by the environment: bind their names first
@@ -602,6 +652,21 @@ impl<R: RtT> CaseRunner for Runner<R> {
                     if o.get("panicked").is_some() {
                         return Some(json!({"what": "panic while observing", "detail": o}));
                     }
+                    if step["op"] == "begin" && step["ex"] == true && step["v"] == true && step["t"].as_u64() == Some(t as u64 + 1) {
+                        // explicit ids must be what is ambient inside the span.  The one known way to be
+                        // wrong (finding F30): the generated ids overwrote them ("last value wins" inside
+                        // the pushed set).  Everything after that point follows from it: the program ends
+                        // here, classified; any other ids are a violation as usual.
+                        let mut own = bij.clone();
+                        if !unify_ids(&mut own, &step["exp"][t], &opt(&o[0]), &opt(&o[1]), &opt(&o[2])) {
+                            let mut lw = bij.clone();
+                            if unify_ids(&mut lw, &step["lastwins"], &opt(&o[0]), &opt(&o[1]), &opt(&o[2])) {
+                                notes.push(json!({"what": F30, "form": form, "where": "in the ambient context of the span",
+                                    "want": step["exp"][t], "ambient": step["lastwins"], "got": o}));
+                                return Some(json!({"what": STOP}));
+                            }
+                        }
+                    }
                     if !unify_ids(bij, &step["exp"][t], &opt(&o[0]), &opt(&o[1]), &opt(&o[2])) {
                         return Some(json!({"what": "SpanCtxt::current differs from the ids of the innermost enabled span",
                             "detail": {"thread": t + 1, "want": step["exp"][t], "got": o, "known": bij.dump()}}));
@@ -609,6 +674,9 @@ impl<R: RtT> CaseRunner for Runner<R> {
                 }
                 None
         });
+        if o.mismatch.as_ref().map_or(false, |m| m["what"] == STOP) {
+            o.mismatch = None;      // ended on a classified deviation, not on a disagreement
+        }
         if let Some(mm) = o.mismatch.as_mut() {
             mm["form"] = json!(form);
         }
@@ -638,13 +706,22 @@ fn build(form: &str) -> Box<dyn CaseRunner> {
     }
     match form {
         "value" => runner("value", leak(Runtime::build(rows.clone(), filter, tl, clock(), rng())), rows, fstate),
-        "ref" => runner("ref", leak(Runtime::build(rows.clone(), filter, leak(tl), clock(), rng())), rows, fstate),
-        "option" => runner("option", leak(Runtime::build(rows.clone(), filter, Some(tl), clock(), rng())), rows, fstate),
-        "box" => runner("box", leak(Runtime::build(rows.clone(), filter, Box::new(tl), clock(), rng())), rows, fstate),
-        "arc" => runner("arc", leak(Runtime::build(rows.clone(), filter, Arc::new(tl), clock(), rng())), rows, fstate),
+        // a runtime without a random source
+        "norng" => runner("norng", leak(Runtime::build(rows.clone(), filter, tl, clock(), None::<CounterRng>)), rows, fstate),
+        // the random source takes the same form as the context (the Rng wrapper impls of core/src/rng.rs)
+        "ref" => runner("ref", leak(Runtime::build(rows.clone(), filter, leak(tl), clock(), leak(rng()))), rows, fstate),
+        "option" => runner("option", leak(Runtime::build(rows.clone(), filter, Some(tl), clock(), Some(rng()))), rows, fstate),
+        "box" => runner("box", leak(Runtime::build(rows.clone(), filter, Box::new(tl), clock(), Box::new(rng()))), rows, fstate),
+        "arc" => runner("arc", leak(Runtime::build(rows.clone(), filter, Arc::new(tl), clock(), Arc::new(rng()))), rows, fstate),
         "dyn" => runner(
             "dyn",
-            leak(Runtime::build(rows.clone(), filter, Box::new(tl) as Box<dyn emit_core::ctxt::ErasedCtxt + Send + Sync>, clock(), rng())),
+            leak(Runtime::build(
+                rows.clone(),
+                filter,
+                Box::new(tl) as Box<dyn emit_core::ctxt::ErasedCtxt + Send + Sync>,
+                clock(),
+                Box::new(rng()) as Box<dyn emit_core::rng::ErasedRng + Send + Sync>,
+            )),
             rows,
             fstate,
         ),
